@@ -19,11 +19,19 @@ func getTemplateBuffer() *bytes.Buffer {
 	return bytes.NewBuffer(nil)
 }
 
+// maxTemplateSourceSize bounds the text of a template: text/template parses
+// nested parentheses and control structures recursively, a template nested
+// hundreds of thousands of levels deep overflows the stack, which is fatal.
+const maxTemplateSourceSize = 256 << 10
+
 func compileTemplate(
 	name, tmpl string,
 	currentTimestamp func() time.Time,
 	currentLine func() string,
 ) (*template.Template, error) {
+	if len(tmpl) > maxTemplateSourceSize {
+		return nil, errors.Errorf("template %q is too large: %d bytes (at most %d)", name, len(tmpl), maxTemplateSourceSize)
+	}
 	return template.New(name).
 		Option("missingkey=zero").
 		Funcs(tmplFunctions(currentTimestamp, currentLine)).
